@@ -76,6 +76,8 @@ type Exec struct {
 	specDefs   map[string]*SpecDef
 	fuel       int
 	kvHandles  map[string]kvHandle
+	authT      *authTypes
+	noC09      bool
 }
 
 func NewExec(p *Program) *Exec {
